@@ -340,11 +340,15 @@ fn any_rect(lo: i32, hi: i32) -> IntRect {
     kani::assume(r.min.x >= lo && r.min.x <= hi && r.min.y >= lo && r.min.y <= hi && r.max.x >= lo && r.max.x <= hi && r.max.y >= lo && r.max.y <= hi);
     r
 }
-/// a rectangle whose four coordinates lie inside the surface box (it may be empty or inverted): WF for clip and layer rects
 fn any_rect_in_surface() -> IntRect {
-    let r = intrect::<i32>(kani::any(), kani::any(), kani::any(), kani::any());
-    kani::assume(r.min.x >= 0 && r.min.x <= CW && r.max.x >= 0 && r.max.x <= CW && r.min.y >= 0 && r.min.y <= CH && r.max.y >= 0 && r.max.y <= CH);
+    let r = any_rect(-4000, 4000);
+    kani::assume(wf_rect(r));
     r
+}
+/// WF for clip and layer rects: empty/inverted (then nothing can be drawn through it), or inside the surface box
+fn wf_rect(r: IntRect) -> bool {
+    let empty = !(r.max.x > r.min.x && r.max.y > r.min.y);
+    empty || (r.min.x >= 0 && r.max.x <= CW && r.min.y >= 0 && r.max.y <= CH)
 }
 fn wf_target(with_clip: u8, with_layer: bool) -> DrawTarget {
     let mut dt = DrawTarget::new(CW, CH);
@@ -453,4 +457,363 @@ fn k_composite_singular() {
     dt.composite(&src, None, r, r, BlendMode::SrcOver, 1.);
     assert!(unsafe { REC.chosen } == 0, "singular transform: nothing is drawn");
     kani::cover!(a != 0.);
+}
+
+// ------------------------------------------------------------------ clip stack (C05 #1,#3,#4; WF for C07 #5)
+fn surface_rect() -> IntRect { intrect(0, 0, CW, CH) }
+fn rect_in_surface_box(r: IntRect) -> bool { wf_rect(r) }
+fn any_mask_bytes() -> Vec<u8> {
+    let a: [u8; (CW * CH) as usize + 1] = kani::any();
+    a.to_vec()
+}
+fn wf_target_sym(with_clip: u8) -> DrawTarget {
+    let mut dt = DrawTarget::new(CW, CH);
+    if with_clip == 1 {
+        dt.clip_stack.push(Clip { rect: any_rect_in_surface(), mask: None });
+    } else if with_clip == 2 {
+        dt.clip_stack.push(Clip { rect: any_rect_in_surface(), mask: Some(any_mask_bytes()) });
+    }
+    dt
+}
+
+fn masks_equal(a: &Vec<u8>, b: &Vec<u8>) -> bool {
+    if a.len() != b.len() { return false; }
+    let mut i = 0;
+    let mut eq = true;
+    while i < (CW * CH) as usize + 1 { if i < a.len() && a[i] != b[i] { eq = false; } i += 1; }
+    eq
+}
+/// two rectangles denote the same set of pixels (all empty/inverted rectangles denote the empty set)
+fn same_region(a: IntRect, b: IntRect) -> bool {
+    let ea = !(a.max.x > a.min.x && a.max.y > a.min.y);
+    let eb = !(b.max.x > b.min.x && b.max.y > b.min.y);
+    (ea && eb) || (!ea && !eb && a == b)
+}
+fn push_clip_rect_wf(with_clip: u8) {
+    let mut dt = wf_target_sym(with_clip);
+    let r = any_rect(-4000, 4000);
+    dt.push_clip_rect(r);
+    assert!(wf_rect(dt.clip_bounds()), "WF: clip bounds are empty or inside the surface box");
+    kani::cover!(r.max.x > CW && r.min.x < 0);
+}
+// @ob id=K.push_clip_rect_wf0 props=C07 kind=complete tier=quick timeout=600 fns=DrawTarget::push_clip_rect
+// @+ desc="WF established by the first push_clip_rect for ANY r in ±4000: the clip bounds are empty or inside the surface (layers are sized by clip bounds and clip masks are indexed by absolute device coordinates, so a clip rectangle larger than the surface must not survive as clip bounds)"
+#[kani::proof]
+#[kani::unwind(9)]
+fn k_push_clip_rect_wf0() { push_clip_rect_wf(0); }
+// @ob id=K.push_clip_rect_wf1 props=C07 kind=complete tier=quick timeout=600 fns=DrawTarget::push_clip_rect
+// @+ desc="WF preserved by push_clip_rect on a non-empty stack for ANY r in ±4000"
+#[kani::proof]
+#[kani::unwind(9)]
+fn k_push_clip_rect_wf1() { push_clip_rect_wf(1); }
+
+fn push_clip_rect_contract(with_clip: u8) {
+    let mut dt = wf_target_sym(with_clip);
+    dt.transform = Transform::new(kani::any(), kani::any(), kani::any(), kani::any(), kani::any(), kani::any());
+    let t0 = dt.transform;
+    let old_bounds = dt.clip_bounds();
+    let old_rect = if with_clip > 0 { dt.clip_stack[0].rect } else { surface_rect() };
+    let old_mask: Option<Vec<u8>> = if with_clip == 2 { dt.clip_stack[0].mask.clone() } else { None };
+    let r = any_rect(-4000, 4000);
+    dt.push_clip_rect(r);
+    assert!(dt.clip_stack.len() == (if with_clip > 0 { 2 } else { 1 }), "one entry pushed");
+    let top = dt.clip_stack.last().unwrap();
+    assert!(same_region(isect(top.rect, surface_rect()), isect(isect(old_bounds, r), surface_rect())), "effective clip region = old clip bounds ∩ r (on the surface)");
+    if with_clip == 2 {
+        match &top.mask {
+            Some(n) => assert!(masks_equal(n, old_mask.as_ref().unwrap()), "path-clip coverage below is kept"),
+            None => assert!(false, "path-clip coverage below is kept (mask dropped)"),
+        }
+    } else {
+        assert!(top.mask.is_none(), "no mask appears from nowhere");
+    }
+    if with_clip > 0 {
+        assert!(dt.clip_stack[0].rect == old_rect, "lower entry unchanged");
+        if with_clip == 2 { assert!(masks_equal(dt.clip_stack[0].mask.as_ref().unwrap(), old_mask.as_ref().unwrap()), "lower entry mask unchanged"); }
+    }
+    assert!(dt.layer_stack.len() == 0 && dt.width == CW && dt.height == CH && dt.buf.len() == (CW * CH) as usize, "frame");
+    assert!(dt.transform.m11.to_bits() == t0.m11.to_bits() && dt.transform.m32.to_bits() == t0.m32.to_bits(), "transform untouched");
+    // pop restores
+    dt.pop_clip();
+    assert!(dt.clip_stack.len() == with_clip.min(1) as usize, "pop removes exactly one entry");
+    assert!(dt.clip_bounds() == old_bounds, "clip bounds restored by pop_clip");
+    if with_clip == 0 { assert!(old_bounds == surface_rect(), "clip_bounds = surface when no clip"); } else { assert!(old_bounds == old_rect, "clip_bounds = top rect"); }
+    kani::cover!(r.max.x > CW);
+    kani::cover!(r.max.x < r.min.x);
+}
+// @ob id=K.push_clip_rect_0 props=C05,C11 kind=complete tier=quick timeout=600 fns=DrawTarget::push_clip_rect,DrawTarget::pop_clip,DrawTarget::clip_bounds
+// @+ desc="push_clip_rect(r) on an empty clip stack for ANY r in ±4000 (empty, inverted, off-surface): the effective clip region (clip bounds ∩ surface) = surface ∩ r; pixels, layers, transform unchanged (transform ignored); pop_clip restores exactly the previous state; clip_bounds() = top rect or surface. Loop-free: complete for all rect values (surface size fixed 3x2 only to build the object)"
+#[kani::proof]
+#[kani::unwind(9)]
+fn k_push_clip_rect_0() { push_clip_rect_contract(0); }
+
+// @ob id=K.push_clip_rect_1 props=C05 kind=complete tier=quick timeout=600 fns=DrawTarget::push_clip_rect,DrawTarget::pop_clip
+// @+ desc="push_clip_rect(r) on top of a rectangular clip entry: effective clip region = old clip bounds ∩ r; lower entry unchanged; pop restores"
+#[kani::proof]
+#[kani::unwind(9)]
+fn k_push_clip_rect_1() { push_clip_rect_contract(1); }
+
+// @ob id=K.push_clip_rect_2 props=C05 kind=bounded:surface=3x2 tier=quick timeout=600 fns=DrawTarget::push_clip_rect,DrawTarget::pop_clip
+// @+ desc="push_clip_rect(r) on top of a PATH clip entry (symbolic coverage bytes): the new top entry keeps that coverage mask byte for byte (the top entry represents the intersection of everything pushed, so path clips below stay in force); lower entry unchanged; pop restores"
+#[kani::proof]
+#[kani::unwind(9)]
+fn k_push_clip_rect_2() { push_clip_rect_contract(2); }
+
+// ------------------------------------------------------------------ layers (C06 #1, C07 #5)
+// @ob id=K.push_layer props=C06,C07 kind=bounded:surface=3x2 tier=quick timeout=600 fns=DrawTarget::push_layer_with_blend,DrawTarget::push_layer
+// @+ desc="push_layer_with_blend(o,b) under any WF clip (incl. empty and inverted clip bounds) never panics and pushes Layer{rect: clip bounds, buf: zeros of len max(w,0)*max(h,0), opacity o, blend b}; surface pixels, clip stack and transform unchanged; push_layer(o) == push_layer_with_blend(o, SrcOver)"
+#[kani::proof]
+#[kani::unwind(9)]
+fn k_push_layer() {
+    let with_clip: u8 = 1;
+    let mut dt = wf_target_sym(with_clip);
+    let bounds = dt.clip_bounds();
+    let o: f32 = kani::any();
+    let which: bool = kani::any();
+    if which { dt.push_layer_with_blend(o, BlendMode::Multiply); } else { dt.push_layer(o); }
+    assert!(dt.layer_stack.len() == 1, "one layer pushed");
+    let l = &dt.layer_stack[0];
+    let w = (bounds.max.x - bounds.min.x).max(0);
+    let h = (bounds.max.y - bounds.min.y).max(0);
+    assert!(l.rect == bounds, "layer rect = clip bounds");
+    assert!(l.buf.len() == (w * h) as usize, "layer buffer has max(w,0)*max(h,0) pixels");
+    let mut i = 0;
+    while i < (CW * CH) as usize { if i < l.buf.len() { assert!(l.buf[i] == 0, "layer starts transparent"); } i += 1; }
+    assert!(l.opacity.to_bits() == o.to_bits() && l.blend == (if which { BlendMode::Multiply } else { BlendMode::SrcOver }), "opacity and blend stored");
+    assert!(dt.clip_stack.len() == with_clip as usize && dt.transform == Transform::identity(), "clip stack and transform unchanged");
+    kani::cover!(bounds.max.x < bounds.min.x);
+    kani::cover!(w == 3 && h == 2);
+}
+
+// ------------------------------------------------------------------ callers of composite (C02 #6, C03 #6, C06 #4, C14 #1)
+pub struct CompLog {
+    pub n: usize,
+    pub mask_ptr: usize, pub mask_len: usize, pub mask_first: u8, pub mask_last: u8, pub has_mask: bool,
+    pub mask_rect: IntRect, pub rect: IntRect, pub blend: BlendMode, pub alpha_bits: u32,
+    pub transform_at_call: [u32; 6],
+    pub layers_at_call: usize,
+    pub src_kind: u8, // 0 solid, 1 image, 2 other
+    pub solid: u32,
+    pub img: (i32, i32, usize, usize), // width, height, data ptr, data len
+    pub img_pad_nearest: bool,
+    pub img_xf: [u32; 6],
+}
+const ZR: IntRect = IntRect { min: euclid::Point2D { x: 0, y: 0, _unit: std::marker::PhantomData }, max: euclid::Point2D { x: 0, y: 0, _unit: std::marker::PhantomData } };
+pub static mut COMP: CompLog = CompLog { n: 0, mask_ptr: 0, mask_len: 0, mask_first: 0, mask_last: 0, has_mask: false, mask_rect: ZR, rect: ZR, blend: BlendMode::Dst, alpha_bits: 0,
+    transform_at_call: [0; 6], layers_at_call: 0, src_kind: 0, solid: 0, img: (0, 0, 0, 0), img_pad_nearest: false, img_xf: [0; 6] };
+fn xf_bits(t: &Transform) -> [u32; 6] { [t.m11.to_bits(), t.m12.to_bits(), t.m21.to_bits(), t.m22.to_bits(), t.m31.to_bits(), t.m32.to_bits()] }
+fn composite_rec<Backing: AsRef<[u32]> + AsMut<[u32]>>(dt: &mut DrawTarget<Backing>, src: &Source, mask: Option<&[u8]>, mask_rect: IntRect, rect: IntRect, blend: BlendMode, alpha: f32) {
+    unsafe {
+        COMP.n += 1;
+        COMP.has_mask = mask.is_some();
+        if let Some(m) = mask {
+            COMP.mask_ptr = m.as_ptr() as usize; COMP.mask_len = m.len();
+            if m.len() > 0 { COMP.mask_first = m[0]; COMP.mask_last = m[m.len() - 1]; }
+        }
+        COMP.mask_rect = mask_rect; COMP.rect = rect; COMP.blend = blend; COMP.alpha_bits = alpha.to_bits();
+        COMP.transform_at_call = xf_bits(&dt.transform);
+        COMP.layers_at_call = dt.layer_stack.len();
+        match src {
+            Source::Solid(c) => { COMP.src_kind = 0; COMP.solid = c.to_u32(); }
+            Source::Image(img, ext, filt, xf) => {
+                COMP.src_kind = 1;
+                COMP.img = (img.width, img.height, img.data.as_ptr() as usize, img.data.len());
+                COMP.img_pad_nearest = matches!(ext, ExtendMode::Pad) && *filt == FilterMode::Nearest;
+                COMP.img_xf = xf_bits(xf);
+            }
+            _ => { COMP.src_kind = 2; }
+        }
+    }
+}
+fn comp_reset() { unsafe { COMP.n = 0; FILL.n = 0; } }
+fn xf_eq(a: &[u32; 6], b: &[u32; 6]) -> bool { a[0] == b[0] && a[1] == b[1] && a[2] == b[2] && a[3] == b[3] && a[4] == b[4] && a[5] == b[5] }
+pub struct FillLog { pub n: usize, pub ops: usize, pub pts: [(u32, u32); 4], pub closed: bool, pub winding: Winding, pub blend: BlendMode, pub alpha_bits: u32, pub aa: AntialiasMode, pub solid: u32, pub src_kind: u8, pub transform_at_call: [u32; 6] }
+pub static mut FILL: FillLog = FillLog { n: 0, ops: 0, pts: [(0, 0); 4], closed: false, winding: Winding::NonZero, blend: BlendMode::Dst, alpha_bits: 0, aa: AntialiasMode::None, solid: 0, src_kind: 0, transform_at_call: [0; 6] };
+fn fill_rec<Backing: AsRef<[u32]> + AsMut<[u32]>>(dt: &mut DrawTarget<Backing>, path: &Path, src: &Source, options: &DrawOptions) {
+    unsafe {
+        FILL.n += 1;
+        FILL.ops = path.ops.len();
+        FILL.winding = path.winding;
+        FILL.closed = false;
+        let mut i = 0;
+        while i < 5 {
+            if i < path.ops.len() {
+                match path.ops[i] {
+                    PathOp::MoveTo(p) | PathOp::LineTo(p) => { if i < 4 { FILL.pts[i] = (p.x.to_bits(), p.y.to_bits()); } }
+                    PathOp::Close => { if i == 4 { FILL.closed = true; } }
+                    _ => {}
+                }
+            }
+            i += 1;
+        }
+        FILL.blend = options.blend_mode; FILL.alpha_bits = options.alpha.to_bits(); FILL.aa = options.antialias;
+        match src { Source::Solid(c) => { FILL.src_kind = 0; FILL.solid = c.to_u32(); } Source::Image(..) => { FILL.src_kind = 1; } _ => { FILL.src_kind = 2; } }
+        FILL.transform_at_call = xf_bits(&dt.transform);
+    }
+}
+
+// @ob id=K.mask_args props=C03,C02,C07,C11 kind=complete tier=quick timeout=300 fns=DrawTarget::mask
+// @+ desc="mask(src,x,y,m) composites with mask rect = shape rect = [x,x+m.width) x [y,y+m.height), SrcOver, alpha 1, m.data as coverage (so by K.composite_mask the byte for device pixel (px,py) is m.data[(py-y)*m.width+(px-x)] and nothing outside that rectangle changes), for every x,y in ±4000 and any transform (ignored)"
+#[kani::proof]
+#[kani::unwind(9)]
+#[kani::stub(DrawTarget::composite, composite_rec)]
+fn k_mask_args() {
+    let mut dt = DrawTarget::new(CW, CH);
+    let x: i32 = kani::any();
+    let y: i32 = kani::any();
+    let w: i32 = kani::any();
+    let h: i32 = kani::any();
+    kani::assume(x >= -4000 && x <= 4000 && y >= -4000 && y <= 4000 && w >= 1 && w <= 3 && h >= 1 && h <= 2);
+    let m = Mask { width: w, height: h, data: vec![7u8; (w * h) as usize] };
+    let src = Source::Solid(SolidSource { r: 1, g: 2, b: 3, a: 255 });
+    comp_reset();
+    dt.mask(&src, x, y, &m);
+    let c = unsafe { &COMP };
+    assert!(c.n == 1, "one composite");
+    assert!(c.mask_rect == intrect(x, y, x + w, y + h), "mask rect = [x,x+w) x [y,y+h)");
+    assert!(c.rect == intrect(x, y, x + w, y + h), "shape rect = [x,x+w) x [y,y+h)");
+    assert!(c.has_mask && c.mask_ptr == m.data.as_ptr() as usize && c.mask_len == m.data.len(), "coverage = the mask's bytes");
+    assert!(c.blend == BlendMode::SrcOver && c.alpha_bits == 1f32.to_bits(), "SrcOver, alpha 1");
+    kani::cover!(x == 2 && y == 1 && w == 2 && h == 2);
+}
+
+// @ob id=K.pop_layer_args props=C06,C02,C11 kind=bounded:surface=3x2 tier=quick timeout=600 fns=DrawTarget::pop_layer
+// @+ desc="pop_layer pops exactly one layer and composites ONCE: source = the layer buffer as a Pad/Nearest image of the layer's size translated so texel (i,j) sits at device (rect.min.x+i, rect.min.y+j); coverage = round(opacity*255) at every surface pixel (mask rect = whole surface); region = layer rect; blend = layer blend; alpha 1; under the identity transform; destination = what is on top after the pop; the current transform is restored bit for bit"
+#[kani::proof]
+#[kani::unwind(9)]
+#[kani::stub(DrawTarget::composite, composite_rec)]
+fn k_pop_layer_args() { pop_layer_args(false); }
+// @ob id=K.pop_layer_args_nested props=C06 kind=bounded:surface=3x2 tier=quick timeout=600 fns=DrawTarget::pop_layer
+// @+ desc="pop_layer with another layer beneath: same contract; the destination of the single composite is the layer beneath (layers nest)"
+#[kani::proof]
+#[kani::unwind(9)]
+#[kani::stub(DrawTarget::composite, composite_rec)]
+fn k_pop_layer_args_nested() { pop_layer_args(true); }
+fn pop_layer_args(nested: bool) {
+    let mut dt = DrawTarget::new(CW, CH);
+    if nested { dt.layer_stack.push(Layer { buf: vec![0u32; 6], opacity: 1., rect: surface_rect(), blend: BlendMode::SrcOver }); }
+    let rect = any_rect_in_surface();
+    let w = (rect.max.x - rect.min.x).max(0);
+    let h = (rect.max.y - rect.min.y).max(0);
+    let opacity: f32 = kani::any();
+    kani::assume(opacity >= 0. && opacity <= 1.);
+    dt.layer_stack.push(Layer { buf: vec![0u32; (w * h) as usize], opacity, rect, blend: BlendMode::Multiply });
+    let t = Transform::new(kani::any(), kani::any(), kani::any(), kani::any(), kani::any(), kani::any());
+    dt.transform = t;
+    comp_reset();
+    dt.pop_layer();
+    let c = unsafe { &COMP };
+    assert!(dt.layer_stack.len() == (if nested { 1 } else { 0 }), "exactly one layer popped");
+    assert!(c.n == 1, "composited exactly once");
+    assert!(c.layers_at_call == (if nested { 1 } else { 0 }), "destination is the target beneath the popped layer");
+    assert!(c.src_kind == 1 && c.img.0 == rect.max.x - rect.min.x && c.img.1 == rect.max.y - rect.min.y && c.img.3 == (w * h) as usize && c.img_pad_nearest, "source = layer buffer as an image of the layer's size");
+    assert!(f32::from_bits(c.img_xf[0]) == 1. && f32::from_bits(c.img_xf[1]) == 0. && f32::from_bits(c.img_xf[2]) == 0. && f32::from_bits(c.img_xf[3]) == 1. && f32::from_bits(c.img_xf[4]) == -(rect.min.x as f32) && f32::from_bits(c.img_xf[5]) == -(rect.min.y as f32), "texel (i,j) sits at device (rect.min.x+i, rect.min.y+j)");
+    assert!(c.rect == rect && c.mask_rect == surface_rect(), "region = layer rect; coverage mask spans the surface");
+    let ob = (opacity * 255. + 0.5) as u8;
+    assert!(c.has_mask && c.mask_len == (CW * CH) as usize && c.mask_first == ob && c.mask_last == ob, "coverage = opacity byte everywhere");
+    // round(opacity*255): |ob - opacity*255| <= 0.5
+    assert!((ob as f32 - opacity * 255.).abs() <= 0.5, "opacity byte = round(opacity*255)");
+    assert!(c.blend == BlendMode::Multiply && c.alpha_bits == 1f32.to_bits(), "layer blend mode, alpha 1");
+    assert!(xf_eq(&c.transform_at_call, &xf_bits(&Transform::identity())), "composited in device space");
+    assert!(xf_eq(&xf_bits(&dt.transform), &xf_bits(&t)), "current transform restored");
+    kani::cover!(w == 2 && h == 1 && ob == 128);
+}
+
+// @ob id=K.fill_rect_fast props=C14,C02,C07 kind=bounded:surface=3x2 tier=quick timeout=600 fns=DrawTarget::fill_rect
+// @+ desc="fill_rect fast path: with identity transform, empty clip stack and integral x,y,w,h it composites without mask over r = [x,x+w) x [y,y+h) ∩ surface (mask rect = r), with the caller's blend mode and alpha, and draws nothing when r is empty (zero/negative sizes, off-surface); x,y,w,h integral in ±4000"
+#[kani::proof]
+#[kani::unwind(9)]
+#[kani::stub(DrawTarget::composite, composite_rec)]
+#[kani::stub(DrawTarget::fill, fill_rec)]
+fn k_fill_rect_fast() {
+    let mut dt = DrawTarget::new(CW, CH);
+    let ix: i32 = kani::any();
+    let iy: i32 = kani::any();
+    let iw: i32 = kani::any();
+    let ih: i32 = kani::any();
+    kani::assume(ix >= -4000 && ix <= 4000 && iy >= -4000 && iy <= 4000 && iw >= -4000 && iw <= 4000 && ih >= -4000 && ih <= 4000);
+    let alpha: f32 = kani::any();
+    let src = Source::Solid(SolidSource { r: 1, g: 2, b: 3, a: 255 });
+    let opts = DrawOptions { blend_mode: BlendMode::Xor, alpha, antialias: AntialiasMode::Gray };
+    comp_reset();
+    dt.fill_rect(ix as f32, iy as f32, iw as f32, ih as f32, &src, &opts);
+    let c = unsafe { &COMP };
+    assert!(unsafe { FILL.n } == 0, "fast path taken (no path fill)");
+    let r = isect(intrect(ix, iy, ix + iw, iy + ih), surface_rect());
+    if r.min.x >= r.max.x || r.min.y >= r.max.y {
+        assert!(c.n == 0, "empty rectangle: nothing drawn");
+    } else {
+        assert!(c.n == 1 && !c.has_mask, "one mask-less composite");
+        assert!(c.rect == r && c.mask_rect == r, "region = rectangle ∩ surface");
+        assert!(c.blend == BlendMode::Xor && c.alpha_bits == alpha.to_bits(), "caller's blend mode and alpha");
+    }
+    kani::cover!(c.n == 1 && r.min.x == 1);
+    kani::cover!(c.n == 0 && iw < 0);
+}
+
+// ------------------------------------------------------------------ clear (C03 #7, C06 #3, C11 #3, C14 #6)
+// @ob id=K.clear_unclipped props=C03,C06,C14 kind=bounded:surface=3x2 tier=quick timeout=600 fns=DrawTarget::clear
+// @+ desc="clear(c) with an empty clip stack: every pixel of the CURRENT TARGET (innermost open layer if any, else the surface) equals c.to_u32() exactly, and the surface beneath an open layer is untouched; transform unchanged"
+#[kani::proof]
+#[kani::unwind(9)]
+#[kani::stub(DrawTarget::fill, fill_rec)]
+fn k_clear_unclipped() {
+    let mut dt = DrawTarget::new(CW, CH);
+    let with_layer: bool = kani::any();
+    let surf0: [u32; 6] = kani::any();
+    dt.buf.copy_from_slice(&surf0);
+    if with_layer {
+        let l0: [u32; 6] = kani::any();
+        dt.layer_stack.push(Layer { buf: l0.to_vec(), opacity: 1., rect: surface_rect(), blend: BlendMode::SrcOver });
+    }
+    let c = SolidSource { r: kani::any(), g: kani::any(), b: kani::any(), a: kani::any() };
+    comp_reset();
+    dt.clear(c);
+    let mut i = 0;
+    while i < 6 {
+        if with_layer {
+            assert!(unsafe { FILL.n } == 1 || dt.layer_stack[0].buf[i] == c.to_u32(), "clear targets the innermost open layer");
+            assert!(dt.buf[i] == surf0[i], "the surface beneath an open layer is untouched by clear");
+        } else {
+            assert!(unsafe { FILL.n } == 1 || dt.buf[i] == c.to_u32(), "every pixel equals the requested colour exactly");
+        }
+        i += 1;
+    }
+    if unsafe { FILL.n } == 1 {
+        // routed through the general path: must be the full-surface Src fill
+        let f = unsafe { &FILL };
+        assert!(f.blend == BlendMode::Src && f.alpha_bits == 1f32.to_bits() && f.src_kind == 0 && f.solid == c.to_u32(), "general route: Src fill of the colour, alpha 1");
+        assert!(f.ops == 5 && f.closed && f.pts[0] == (0f32.to_bits(), 0f32.to_bits()) && f.pts[2] == ((CW as f32).to_bits(), (CH as f32).to_bits()), "general route: the whole surface rectangle");
+        assert!(xf_eq(&f.transform_at_call, &xf_bits(&Transform::identity())), "general route: device space");
+    }
+    assert!(dt.transform == Transform::identity(), "transform unchanged");
+    kani::cover!(with_layer);
+    kani::cover!(!with_layer);
+}
+
+// @ob id=K.clear_clipped props=C03,C06,C11,C14 kind=bounded:surface=3x2 tier=quick timeout=600 fns=DrawTarget::clear
+// @+ desc="clear(c) under a non-empty clip stack: exactly one fill of the rectangle (0,0,width,height) with Source::Solid(c), blend Src, alpha 1, under the identity transform (so it goes through the clip and the layer selection of composite), and the current transform is restored bit for bit"
+#[kani::proof]
+#[kani::unwind(9)]
+#[kani::stub(DrawTarget::fill, fill_rec)]
+fn k_clear_clipped() {
+    let mut dt = wf_target_sym(1);
+    let t = Transform::new(kani::any(), kani::any(), kani::any(), kani::any(), kani::any(), kani::any());
+    dt.transform = t;
+    let surf0: [u32; 6] = kani::any();
+    dt.buf.copy_from_slice(&surf0);
+    let c = SolidSource { r: kani::any(), g: kani::any(), b: kani::any(), a: kani::any() };
+    comp_reset();
+    dt.clear(c);
+    let f = unsafe { &FILL };
+    assert!(f.n == 1, "one fill");
+    assert!(f.blend == BlendMode::Src && f.alpha_bits == 1f32.to_bits() && f.src_kind == 0 && f.solid == c.to_u32(), "Src fill of the colour, alpha 1");
+    assert!(f.ops == 5 && f.closed, "a closed rectangle path");
+    assert!(f.pts[0] == (0f32.to_bits(), 0f32.to_bits()) && f.pts[1] == ((CW as f32).to_bits(), 0f32.to_bits())
+         && f.pts[2] == ((CW as f32).to_bits(), (CH as f32).to_bits()) && f.pts[3] == (0f32.to_bits(), (CH as f32).to_bits()), "the whole surface rectangle");
+    assert!(xf_eq(&f.transform_at_call, &xf_bits(&Transform::identity())), "filled in device space");
+    assert!(xf_eq(&xf_bits(&dt.transform), &xf_bits(&t)), "current transform restored");
+    let mut i = 0;
+    while i < 6 { assert!(dt.buf[i] == surf0[i], "no direct write bypasses the clip"); i += 1; }
+    kani::cover!(true);
 }
